@@ -291,7 +291,7 @@ def nextAction (env : Env) (d : Dbg) (m : Machine) (w : World) : NextResult :=
     | .eq => d
   let instr := sigOf (m.read m.pc)
   let d := checkInterrupts d m.pc instr
-  actionLoop env (d.cmds.length + 3) d m w instr
+  actionLoop env (2 * d.cmds.length + 3) d m w instr
 
 /-! ### `RunEnvironment::run` with a debugger -/
 
